@@ -130,7 +130,8 @@ class USBControlEndpoint(Elaboratable):
         #
 
         # Create our SETUP packet decoder.
-        m.submodules.setup_decoder = setup_decoder = USBSetupDecoder(utmi=self.utmi)
+        m.submodules.setup_decoder = setup_decoder = \
+            USBSetupDecoder(utmi=self.utmi, endpoint_number=self._endpoint_number)
         m.d.comb += [
             interface.data_crc   .connect(setup_decoder.data_crc),
             interface.tokenizer  .connect(setup_decoder.tokenizer),
